@@ -14,6 +14,7 @@ func init() { checkers["C12"] = checkC12 }
 var transientEnd = map[int64]bool{2: true, 3: true, 4: true, 5: true} // state-changed, disconnected, too-slow, backfill-failed
 
 type c12vb struct {
+	havePos          bool
 	sid              string
 	open             bool
 	final            bool // ended for good
@@ -128,6 +129,7 @@ func checkC12(run *Run, res *Result) {
 		return st[k]
 	}
 	ready := map[int]bool{}
+	opening := map[int]bool{}
 	closing := map[int]bool{}
 	stoppedN := map[int]int{}
 	var stoppedT = map[int]int64{}
@@ -155,7 +157,7 @@ func checkC12(run *Run, res *Result) {
 		if closing[k.m] {
 			tr = false
 		}
-		if tr && ready[k.m] {
+		if tr && (ready[k.m] || opening[k.m]) { // (an already open stream may also end while Open() is still requesting the others)
 			v.awaiting, v.awaitN, v.awaitT, v.posAtEnd = true, e.N, e.T, v.pos
 			res.probe("transient-end")
 			if v.fails > 0 || v.finalN < 0 {
@@ -172,6 +174,10 @@ func checkC12(run *Run, res *Result) {
 		e := &run.Evs[i]
 		k := vbKey{e.M, e.Vb}
 		switch e.K {
+		case journal.KHandler:
+			if e.S == "BeforeStreamStart" {
+				opening[e.M] = true
+			}
 		case journal.KReady:
 			ready[e.M] = true
 			assigned[e.M] = 0
@@ -236,8 +242,8 @@ func checkC12(run *Run, res *Result) {
 			if e.S2 == "ok" {
 				v.sid, v.open, v.end = e.ID, true, e.Off.Latest
 				v.emittedBeforeEnd = nil
-				if !ready[e.M] {
-					v.pos = e.Off.Seq
+				if !v.havePos {
+					v.pos, v.havePos = e.Off.Seq, true // the position the session loaded
 				}
 				scrapeDirty[e.M] = true
 			}
